@@ -22,7 +22,8 @@ GROUPS = {
     "C04": [("cmp_struct", ["eq.structural", "lt.order"])],
     "C05": [("e2e_filter", ["e2e_filter.members", "e2e_filter.order"]), ("text_filter", ["text_filter.members", "text_filter.order"])],
     "C08": [("e2e", ["e2e.no_panic", "e2e.ok"]), ("arith", ["process_index.no_panic", "process_slice.no_panic"]), ("regex", ["regex.no_panic"]),
-            ("descendant", ["process_descendant.no_panic"]), ("name_lookup", ["process_key.no_panic"]), ("text_arith", ["text_arith.no_panic"])],
+            ("descendant", ["process_descendant.no_panic"]), ("name_lookup", ["process_key.no_panic"]), ("text_arith", ["text_arith.no_panic"]),
+            ("custom", ["custom.no_panic", "custom.ok"])],
     "C10": [("regex", ["regex.match", "regex.search", "regex.no_panic"]), ("e2e_fn", ["e2e_fn.members", "e2e_fn.no_panic"])],
     "C11": [("arith", ["process_index.select", "process_slice.select", "process_index.no_panic", "process_slice.no_panic"]),
             ("text_arith", ["text_arith.members", "text_arith.order", "text_arith.no_panic"])],
